@@ -20,7 +20,7 @@ RULE = ("PolarMeasurements built directly: 1-12 radial x 1-12 azimuthal bins, ra
         "distinct = distinct case signature")
 CLAUSES = ["radial-limits", "azimuthal-limits", "both-limits", "no-limits-total", "partition-radial", "partition-azimuthal",
            "detector-regions", "result-type"]
-QUICK = dict(n=1500, time=40)
+QUICK = dict(n=900, time=40)
 THOROUGH = dict(n=40000, time=240, shards=16)
 ASSUMPTIONS = ["only limits aligned with bin edges are judged (the property's quantifier); limits beyond the binned range are not generated"]
 
